@@ -2594,3 +2594,409 @@ def c16_migration_rate():
                 out.append(prove_eq('%s.path%d' % (tag, k), hy + list(p.pc), p.value, want, fn))
         return out
     return go()
+
+
+# ---------------------------------------------------------------- C14: what to_file writes, in which order
+def c14_to_file_wiring():
+    """Spectrum.to_file: comment lines ('# ' + stripped text), then ONE header line: every extent of data.shape, 'folded'/'unfolded', the quoted
+    labels; then the data flattened in logical (C, row-major) order -- ravel() with no order override -- with '%.<precision>g'; then the mask as
+    integers flattened the same way; the file is closed.  foldmaskinfo=False drops the flag, labels and mask line.  A '.gz' name opens gzip text mode."""
+    oid = 'C14/Spectrum_mod.py:Spectrum.to_file'
+    fn = 'dadi/Spectrum_mod.py::Spectrum.to_file'
+
+    @guarded(oid, fn)
+    def go():
+        out = []
+        for folded in (False, True):
+            for fmi in (True, False):
+                for gz in (False, True):
+                    tag = '%s.%s.%s.%s' % (oid, 'folded' if folded else 'unfolded', 'maskinfo' if fmi else 'bare', 'gz' if gz else 'plain')
+                    log = []
+
+                    def flat(name):
+                        t = Tm(name)
+
+                        def ravel(*a, **k):
+                            r = Tm('ravel(%s)' % name)
+                            r.attrs['__ravel_args__'] = (a, dict(k))
+                            return r
+                        t.attrs['ravel'] = PyFn(ravel, name + '.ravel')
+                        return t
+                    data = flat('data')
+                    data.attrs['shape'] = (3, 4)
+                    mask = Tm('mask')
+                    me = Tm('self')
+                    me.attrs.update(data=data, mask=mask, folded=folded, pop_ids=VList(['A b', 'C']))
+                    fid = Tm('fid')
+                    fid.attrs['write'] = PyFn(lambda s_: log.append(('write', s_)), 'fid.write')
+                    fid.attrs['close'] = PyFn(lambda: log.append(('close',)), 'fid.close')
+                    opened = []
+
+                    def ah(ex_, fref, a, kw, ctx):
+                        nm = vrepr(fref)
+                        if nm.endswith('savetxt') or 'savetxt' in nm:
+                            log.append(('savetxt', a, dict(kw)))
+                            return None
+                        if 'gzip' in nm and 'open' in nm:
+                            opened.append(('gzip', a, kw))
+                            return fid
+                        if 'asarray' in nm:
+                            t = flat('asarray(%s,%s)' % (vrepr(a[0]), vrepr(a[1]) if len(a) > 1 else ''))
+                            return t
+                        return NotImplemented
+                    ex = Executor()
+                    ex.abstract_hook = ah
+                    ex.builtins['open'] = PyFn(lambda *a, **k: (opened.append(('open', a, k)), fid)[1], 'open')
+                    f = ex.func('dadi/Spectrum_mod.py', 'Spectrum.to_file')
+                    fname = 'x.fs.gz' if gz else 'x.fs'
+                    paths = ex.run(f, [me, fname], dict(precision=17, comment_lines=VList(['  hello  ']), foldmaskinfo=fmi))
+                    if len(paths) != 1 or paths[0].outcome != 'return':
+                        out.append(struct(tag, False, 'expected one returning path: %r' % paths[:2], fn, undecided=True))
+                        continue
+                    ok_open = len(opened) == 1 and opened[0][0] == ('gzip' if gz else 'open') and list(opened[0][1])[:2] == [fname, 'wt' if gz else 'w']
+                    out.append(struct(tag + '.open', ok_open, 'opened %s' % (opened[:1],), fn))
+                    writes = [x[1] for x in log if x[0] == 'write']
+                    sv = [x for x in log if x[0] == 'savetxt']
+                    text = ''.join(w if isinstance(w, str) else '<%s>' % vrepr(w) for w in writes)
+                    want = '# hello\n3 4 ' + (('folded' if folded else 'unfolded') + ' "A b" "C"' if fmi else '') + '\n'
+                    out.append(struct(tag + '.header', text == want, 'comment and header text %r (expected %r)' % (text, want), fn))
+                    order_ok = [x[0] for x in log if x[0] in ('savetxt', 'close')] == ['savetxt'] * (2 if fmi else 1) + ['close'] and \
+                        all(x[0] == 'write' for x in log[:len(writes)])
+                    out.append(struct(tag + '.order', order_ok, 'header, data line%s, close' % (', mask line' if fmi else ''), fn))
+                    if sv:
+                        a, kw = sv[0][1], sv[0][2]
+                        row = ex.iterate(a[1]) if len(a) > 1 else []
+                        r0 = row[0] if row else None
+                        ra = r0.attrs.get('__ravel_args__') if isinstance(r0, Tm) else None
+                        ok = a and a[0] is fid and len(row) == 1 and isinstance(r0, Tm) and r0.op == 'ravel(data)' and ra == ((), {})
+                        out.append(struct(tag + '.data-line', bool(ok), 'one row: self.data.ravel() in logical order (got %s, ravel args %r)' % (vrepr(r0), ra), fn))
+                        out.append(struct(tag + '.data-format', kw.get('fmt') == '%.17g' and kw.get('delimiter') == ' ', 'fmt %r delimiter %r' % (kw.get('fmt'), kw.get('delimiter')), fn))
+                    else:
+                        out.append(struct(tag + '.data-line', False, 'no savetxt call', fn))
+                    if fmi:
+                        if len(sv) == 2:
+                            a, kw = sv[1][1], sv[1][2]
+                            row = ex.iterate(a[1]) if len(a) > 1 else []
+                            r0 = row[0] if row else None
+                            ra = r0.attrs.get('__ravel_args__') if isinstance(r0, Tm) else None
+                            ok = a[0] is fid and len(row) == 1 and isinstance(r0, Tm) and kw.get('fmt') == '%d' and \
+                                ((r0.op.startswith('ravel(asarray(mask') and ra == ((), {})) or vrepr(r0) == 'call:attr:ravel(call:numpy.array(mask))')
+                            out.append(struct(tag + '.mask-line', bool(ok), 'one row: asarray(self.mask, int).ravel() in the same order, %%d (got %s, ravel args %r)' % (vrepr(r0), ra), fn))
+                        else:
+                            out.append(struct(tag + '.mask-line', False, 'expected a second savetxt call for the mask', fn))
+        return out
+    return go()
+
+
+def c02_const_2d(n, frozen=()):
+    """_two_pops_const_params on an n x n grid with xx[0] = 0, xx[-1] = 1 and every other value symbolic, one step (T - initial_t <= dt).
+    _compute_delj is answered by its contract (entry = delj(M at that midpoint, grid spacing and V at that midpoint *along the swept axis*), an
+    uninterpreted function of those three values), so a sweep that takes its weights from the wrong population's drift fails.
+    The precalc kernels receive, entry by entry, the a, b, c of compute_abc_nobc (contracts/c_shared) without the 1/dt the kernel adds:
+      x sweep, line y_j:  V = x(1-x)/nu1,  M = m12 (y_j - x) + 2 gamma1 x(1-x)(h1+(1-2h1)x) at x midpoints;   y sweep symmetrically with (nu2, m21, gamma2, h2);
+      absorbing terms only at [0,0] and [-1,-1];  x sweep then y sweep, a frozen population's sweep skipped, influx called first with the flags."""
+    frozen = tuple(frozen)
+    oid = 'C02/Integration.py:_two_pops_const_params/system.n%d%s' % (n, ('.frozen' + ''.join(map(str, frozen))) if frozen else '')
+    fn = 'dadi/Integration.py::_two_pops_const_params'
+
+    @guarded(oid, fn)
+    def go():
+        T, t0 = z3.Reals('T t0')
+        nu1, nu2, m12, m21, g1, g2, h1, h2, th = z3.Reals('nu1 nu2 m12 m21 gamma1 gamma2 h1 h2 theta0')
+        xs = [z3.RealVal(0)] + reals('x', n - 2) + [z3.RealVal(1)]
+        ph = [reals('phi%d_' % i, n) for i in range(n)]
+        hy = [T > t0, t0 >= 0, nu1 > 0, nu2 > 0, m12 >= 0, m21 >= 0, th >= 0] + [xs[i] < xs[i + 1] for i in range(n - 1)]
+        delj = uf('delj', 3)
+        calls = []
+
+        def policy(fr):
+            q = fr.qualname
+            if q == '_compute_dt':
+                def cdt(ex_, f_, a, k_):
+                    d = ex_.ctx.fresh('dt')
+                    ex_.ctx.pc += [d >= T - t0, d > 0]
+                    return d
+                return cdt
+            if q == '_compute_delj':
+                def cdj(ex_, f_, a, k_):
+                    dxs, MInt, VInt = a[0], a[1], a[2]
+                    axis = k_.get('axis', a[3] if len(a) > 3 else 0)
+                    rows = [ex_.iterate(r) for r in ex_.iterate(MInt)]
+                    dl, vl = ex_.iterate(dxs), ex_.iterate(VInt)
+                    return VList([VList([delj(to_real(exact(rows[i][j])), to_real(exact(dl[(i, j)[axis]])), to_real(exact(vl[(i, j)[axis]]))) for j in range(len(rows[i]))], 'ndarray')
+                                  for i in range(len(rows))], 'ndarray')
+                return cdj
+            if q == '_inject_mutations_2D':
+                def inj(ex_, f_, a, k_):
+                    calls.append(('inject', list(a)))
+                    return None
+                return inj
+            if q in ('_Mfunc2D', '_Vfunc', '_compute_dfactor', '_two_pops_const_params'):
+                return 'inline'
+            return 'abstract'
+
+        def ah(ex_, fref, a, kw, ctx):
+            nm = vrepr(fref)
+            for k in ('implicit_precalc_2Dx', 'implicit_precalc_2Dy'):
+                if k in nm:
+                    calls.append((k, list(a)))
+                    return Tm('phi_after_' + k[-1])
+            return NotImplemented
+        ex = Executor(policy=policy, max_paths=64)
+        ex.abstract_hook = ah
+        ex.module_overrides[('dadi.Integration', 'cuda_enabled')] = False
+        f = ex.func('dadi/Integration.py', '_two_pops_const_params')
+        phi = VList([VList(list(r), 'ndarray') for r in ph], 'ndarray')
+        kw = dict(nu1=nu1, nu2=nu2, m12=m12, m21=m21, gamma1=g1, gamma2=g2, h1=h1, h2=h2, theta0=th, initial_t=t0,
+                  frozen1=1 in frozen, frozen2=2 in frozen)
+        paths = ex.explore(lambda e: e.apply(f.node, None, f.mod, [phi, VList(list(xs), 'ndarray'), T], kw, 'f'), base_pc=hy)
+        rets = [p for p in paths if p.outcome == 'return']
+        if len(rets) != 1 or len(paths) != 1:
+            return [struct(oid, False, 'expected exactly one (returning) path on a [0,1] grid: %r' % paths[:3], fn, undecided=True)]
+        p = rets[0]
+        pc = list(p.pc)
+        out = []
+        want_seq = ['inject'] + (['implicit_precalc_2Dx'] if 1 not in frozen else []) + (['implicit_precalc_2Dy'] if 2 not in frozen else [])
+        out.append(struct(oid + '.sequence', [c[0] for c in calls] == want_seq, 'one step = %s (got %s)' % (want_seq, [c[0] for c in calls]), fn))
+        dx = lambda k: xs[k + 1] - xs[k]
+        xi = lambda k: (xs[k + 1] + xs[k]) / 2
+        Delta = lambda k: 2 / dx(0) if k == 0 else (2 / dx(n - 2) if k == n - 1 else 2 / (dx(k) + dx(k - 1)))
+        sel = lambda x, g, h: g * 2 * (h + (1 - 2 * h) * x) * x * (1 - x)
+        for c in calls:
+            if c[0] == 'inject':
+                a = c[1]
+                ok = len(a) >= 9 and a[0] is phi and is_scalar(exact(a[1])) and a[4] is th and a[5] is (1 in frozen) and a[6] is (2 in frozen)
+                out.append(struct(oid + '.influx-call', bool(ok), '_inject_mutations_2D(phi, this_dt, xx, yy, theta0, frozen1, frozen2, nomut1, nomut2)', fn))
+                out.append(prove_eq(oid + '.influx-dt', pc, a[1], T - t0, fn))
+                continue
+            swept = 0 if c[0].endswith('x') else 1
+            nu, mig, g, h = (nu1, m12, g1, h1) if swept == 0 else (nu2, m21, g2, h2)
+            A, B, C, dtv = c[1][1], c[1][2], c[1][3], c[1][4]
+            tag = '%s.%s' % (oid, c[0][-2:])
+            out.append(prove_eq(tag + '.dt', pc, dtv, T - t0, fn))
+            V = lambda x: x * (1 - x) / nu
+            get = lambda arr, i, j: to_real(exact(arr.items[i].items[j]))
+            for i in range(n):
+                for j in range(n):
+                    k, o = ((i, j)[swept], (i, j)[1 - swept])      # k: index along the swept axis, o: the other population's grid index
+                    Mm = lambda kk: mig * (xs[o] - xi(kk)) + sel(xi(kk), g, h)
+                    dj = lambda kk: delj(Mm(kk), dx(kk), V(xi(kk)))
+                    sa = z3.RealVal(0) if k == 0 else Delta(k) * (-Mm(k - 1) * dj(k - 1) - V(xs[k - 1]) / (2 * dx(k - 1)))
+                    sc = z3.RealVal(0) if k == n - 1 else Delta(k) * (Mm(k) * (1 - dj(k)) - V(xs[k + 1]) / (2 * dx(k)))
+                    sb = z3.RealVal(0)
+                    if k <= n - 2:
+                        sb = sb + Delta(k) * (Mm(k) * dj(k) + V(xs[k]) / (2 * dx(k)))
+                    if k >= 1:
+                        sb = sb + Delta(k) * (-Mm(k - 1) * (1 - dj(k - 1)) + V(xs[k]) / (2 * dx(k - 1)))
+                    if i == 0 and j == 0:
+                        sb = sb + (z3.RealVal(1) / 2 / nu) * 2 / dx(0)                # M at the corner is 0 on a [0,1] grid
+                    if i == n - 1 and j == n - 1:
+                        sb = sb + (z3.RealVal(1) / 2 / nu) * 2 / dx(n - 2)
+                    for nm_, arr, want in (('a', A, sa), ('b', B, sb), ('c', C, sc)):
+                        out.append(prove_eq('%s.%s[%d,%d]' % (tag, nm_, i, j), pc, get(arr, i, j), want, fn, timeout_ms=30000, finding_key='C02/const2d/' + nm_, z3_first_ms=250))
+        return out
+    return go()
+
+
+def c02_compute_delj_py():
+    """Integration._compute_delj(dx, MInt, VInt, axis): with the Chang-Cooper switch off every weight is 1/2; with it on, entry [i,j] is
+         (-e w + e V - V)/(w - e w),  w = 2 M[i,j] dx_k,  e = exp(w / V_k),  k = the index along `axis`
+    (the same closed form as the C contract delj_value; the nan/inf filters replace only non-finite entries and are outside real arithmetic).
+    This is the contract the constant-parameter driver obligations abstract _compute_delj by: V and dx are read along the swept axis."""
+    oid = 'C02/Integration.py:_compute_delj'
+    fn = 'dadi/Integration.py::_compute_delj'
+
+    @guarded(oid, fn)
+    def go():
+        out = []
+        n = 3
+        for axis in (0, 1):
+            shape = (n - 1, n) if axis == 0 else (n, n - 1)
+            M = [[z3.Real('M%d_%d' % (i, j)) for j in range(shape[1])] for i in range(shape[0])]
+            dxs, Vs = reals('dx', n - 1), reals('V', n - 1)
+            hy = [d > 0 for d in dxs] + [v > 0 for v in Vs]
+            for trick in (False, True):
+                ex = Executor()
+                ex.module_overrides[('dadi.Integration', 'use_delj_trick')] = trick
+                f = ex.func('dadi/Integration.py', '_compute_delj')
+                MInt = VList([VList(list(r), 'ndarray') for r in M], 'ndarray')
+                paths = ex.run(f, [VList(list(dxs), 'ndarray'), MInt, VList(list(Vs), 'ndarray')], dict(axis=axis), base_pc=hy)
+                tag = '%s.axis%d.%s' % (oid, axis, 'trick' if trick else 'plain')
+                rets = [p for p in paths if p.outcome == 'return']
+                if not rets or len(rets) != len(paths):
+                    out.append(struct(tag, False, 'a path does not return: %r' % paths[:2], fn, undecided=True))
+                    continue
+                for pi, p in enumerate(rets):
+                    v = p.value
+                    if not trick:
+                        out.append(prove_eq('%s.path%d' % (tag, pi), hy + list(p.pc), v, z3.RealVal(1) / 2, fn))
+                        continue
+                    exp = uf('exp')
+                    for i in range(shape[0]):
+                        for j in range(shape[1]):
+                            k = (i, j)[axis]
+                            w = 2 * M[i][j] * dxs[k]
+                            e = exp(w / Vs[k])
+                            want = (-e * w + e * Vs[k] - Vs[k]) / (w - e * w)
+                            got = v.items[i].items[j]
+                            # the nan/inf filters: where(isnan(d), 1/2, d) -- over the reals the filtered value is d itself wherever d is defined
+                            out.append(prove_eq('%s.path%d.entry%d_%d' % (tag, pi, i, j), hy + list(p.pc) + [w - e * w != 0], got, want, fn))
+        return out
+    return go()
+
+
+# ---------------------------------------------------------------- C05: semi-analytic samplers (incomplete beta function uninterpreted)
+def _B(a, b, x):
+    return uf('betainc', 3)(z3.RealVal(a), z3.RealVal(b), to_real(x))
+
+
+def _lin_sample_1d(n, xs, fvals, dB=None):
+    """Exact binomial sampling of the piecewise-linear interpolant of f on grid xs, written with the regularised incomplete beta function B:
+         out[d] = sum_k  c_k/(n+1) [B(d+1,n-d+1,.)]_k  +  s_k (d+1)/((n+1)(n+2)) [B(d+2,n-d+1,.)]_k,    s_k slope, c_k = f_k - s_k x_k
+    (from  int C(n,d) x^d (1-x)^(n-d) dx = B(d+1,n-d+1,x)/(n+1)  and  int C(n,d) x^(d+1) (1-x)^(n-d) dx = (d+1) B(d+2,n-d+1,x)/((n+1)(n+2)))."""
+    G = len(xs)
+    out = []
+    for d in range(n + 1):
+        t = z3.RealVal(0)
+        for k in range(G - 1):
+            s = (fvals[k + 1] - fvals[k]) / (xs[k + 1] - xs[k])
+            c = fvals[k] - s * xs[k]
+            if dB is None:
+                d1 = _B(d + 1, n - d + 1, xs[k + 1]) - _B(d + 1, n - d + 1, xs[k])
+                d2 = _B(d + 2, n - d + 1, xs[k + 1]) - _B(d + 2, n - d + 1, xs[k])
+            else:
+                d1, d2 = dB(n, 1, d, k), dB(n, 2, d, k)
+            t = t + c / (n + 1) * d1 + s * z3.Q(d + 1, (n + 1) * (n + 2)) * d2
+        out.append(t)
+    return out
+
+
+def c05_analytic_1d(n, G):
+    """Spectrum._from_phi_1D_analytic = exact integration of the binomial sampling probabilities against the piecewise-linear interpolant of phi
+    (see _lin_sample_1d; scipy.special.betainc uninterpreted, its two defining integrals are the trusted axioms)."""
+    oid = 'C05/Spectrum_mod.py:Spectrum._from_phi_1D_analytic/n%d_G%d' % (n, G)
+    fn = 'dadi/Spectrum_mod.py::Spectrum._from_phi_1D_analytic'
+
+    @guarded(oid, fn)
+    def go():
+        xs, ph = reals('x', G), reals('phi', G)
+        hy = [xs[0] >= 0, xs[-1] <= 1] + [xs[i] < xs[i + 1] for i in range(G - 1)]
+
+        def ah(ex_, fref, a, kw, ctx):
+            if (isinstance(fref, ClassRef) and fref.node.name == 'Spectrum') or (isinstance(fref, Tm) and 'Spectrum' in fref.op):
+                return a[0]
+            return NotImplemented
+        ex = Executor()
+        ex.abstract_hook = ah
+        f = ex.func('dadi/Spectrum_mod.py', 'Spectrum._from_phi_1D_analytic')
+        paths = ex.run(f, [n, VList(list(xs), 'ndarray'), VList(list(ph), 'ndarray')], dict(mask_corners=False), base_pc=hy)
+        if len(paths) != 1 or paths[0].outcome != 'return':
+            return [struct(oid, False, 'expected one returning path: %r' % paths[:2], fn, undecided=True)]
+        data = ex.iterate(paths[0].value)
+        out = [struct(oid + '.length', len(data) == n + 1, 'n+1 entries', fn)]
+        want = _lin_sample_1d(n, xs, ph)
+        trusted = ['scipy.special.betainc(a,b,x) is the regularised incomplete beta function (its two defining integrals)']
+        for d in range(min(n + 1, len(data))):
+            out.append(prove_eq('%s.entry%d' % (oid, d), hy + list(paths[0].pc), data[d], want[d], fn, trusted=trusted))
+        return out
+    return go()
+
+
+def c05_cached_dbeta(n, G):
+    """Spectrum_mod.cached_dbeta(n, xx) = (dB1, dB2) with dBq[d][k] = B(d+q, n-d+1, x_{k+1}) - B(d+q, n-d+1, x_k) on the grid clipped to [0,1]."""
+    oid = 'C05/Spectrum_mod.py:cached_dbeta/n%d_G%d' % (n, G)
+    fn = 'dadi/Spectrum_mod.py::cached_dbeta'
+
+    @guarded(oid, fn)
+    def go():
+        xs = reals('x', G)
+        hy = [xs[0] >= 0, xs[-1] <= 1] + [xs[i] < xs[i + 1] for i in range(G - 1)]
+        ex = Executor()
+        ex.module_overrides[('dadi.Spectrum_mod', '_dbeta_cache')] = VDict()
+        f = ex.func('dadi/Spectrum_mod.py', 'cached_dbeta')
+        paths = ex.run(f, [n, VList(list(xs), 'ndarray')], {}, base_pc=hy)
+        if len(paths) != 1 or paths[0].outcome != 'return':
+            return [struct(oid, False, 'expected one returning path: %r' % paths[:2], fn, undecided=True)]
+        d1, d2 = paths[0].value
+        out = []
+        for q, arr in ((1, d1), (2, d2)):
+            rows = [ex.iterate(r) for r in ex.iterate(arr)]
+            ok = len(rows) == n + 1 and all(len(r) == G - 1 for r in rows)
+            out.append(struct('%s.dbeta%d.shape' % (oid, q), ok, '(n+1) x (G-1)', fn))
+            if not ok:
+                continue
+            for d in range(n + 1):
+                for k in range(G - 1):
+                    want = _B(d + q, n - d + 1, xs[k + 1]) - _B(d + q, n - d + 1, xs[k])
+                    out.append(prove_eq('%s.dbeta%d[%d,%d]' % (oid, q, d, k), hy + list(paths[0].pc), rows[d][k], want, fn))
+        return out
+    return go()
+
+
+def c05_linalg(ns, G):
+    """Spectrum._from_phi_KD_linalg (K = len(ns)) = the 1-D exact piecewise-linear sampling operator applied along every axis (a tensor product),
+    each axis with ITS OWN sample size.  cached_dbeta is answered by its contract (entries named by (n, q, d, k)); all phi values and grid points
+    symbolic, one common grid as the function requires."""
+    ns = tuple(ns)
+    K = len(ns)
+    oid = 'C05/Spectrum_mod.py:Spectrum._from_phi_%dD_linalg/ns%s_G%d' % (K, '_'.join(map(str, ns)), G)
+    fn = 'dadi/Spectrum_mod.py::Spectrum._from_phi_%dD_linalg' % K
+
+    @guarded(oid, fn)
+    def go():
+        xs = reals('x', G)
+        hy = [xs[0] >= 0, xs[-1] <= 1] + [xs[i] < xs[i + 1] for i in range(G - 1)]
+        shape = (G,) * K
+        f_ = {idx: z3.Real('phi' + '_'.join(map(str, idx))) for idx in itertools.product(*[range(G)] * K)}
+        phi = _nd_build(shape, lambda idx: f_[idx])
+        dB = lambda n, q, d, k: z3.Real('dB%d(n%d)[%d,%d]' % (q, n, d, k))
+
+        def pol(fr):
+            if fr.qualname == 'cached_dbeta':
+                def h(ex_, f__, a, kw):
+                    n = exact(a[0])
+                    mk = lambda q: VList([VList([dB(n, q, d, k) for k in range(G - 1)], 'ndarray') for d in range(n + 1)], 'ndarray')
+                    return (mk(1), mk(2))
+                return h
+            return 'inline' if fr.qualname.startswith('Spectrum._from_phi_') and fr.qualname.endswith('D_linalg') else 'abstract'
+
+        def ah(ex_, fref, a, kw, ctx):
+            if (isinstance(fref, ClassRef) and fref.node.name == 'Spectrum') or (isinstance(fref, Tm) and 'Spectrum' in fref.op):
+                return a[0]
+            if 'allclose' in vrepr(fref):
+                return True
+            return NotImplemented
+        ex = Executor(policy=pol)
+        ex.abstract_hook = ah
+        f = ex.func('dadi/Spectrum_mod.py', 'Spectrum._from_phi_%dD_linalg' % K)
+        grid = VList(list(xs), 'ndarray')
+        paths = ex.run(f, list(ns) + [grid] * K + [phi], dict(mask_corners=False), base_pc=hy)
+        if len(paths) != 1 or paths[0].outcome != 'return':
+            return [struct(oid, False, 'expected one returning path: %r' % paths[:2], fn, undecided=True)]
+        res = paths[0].value
+        want_shape = tuple(n + 1 for n in ns)
+        got_shape = ex.list_method(res, 'shape') if isinstance(res, VList) else None
+        out = [struct(oid + '.shape', got_shape == want_shape, 'shape %s (got %s)' % (want_shape, got_shape), fn)]
+        if got_shape != want_shape:
+            return out
+
+        # spec: apply the 1-D operator along the last axis first, then the previous one, ...
+        def apply_axis(vals, n):
+            # vals: dict idx(K'-tuple over grid) -> expr ; contracts the LAST axis, returns dict (idx[:-1] + (d,))
+            outd = {}
+            heads = sorted({idx[:-1] for idx in vals})
+            for hd in heads:
+                line = [vals[hd + (k,)] for k in range(G)]
+                smp = _lin_sample_1d(n, xs, line, dB=dB)
+                for d in range(n + 1):
+                    outd[hd + (d,)] = smp[d]
+            return outd
+        cur = dict(f_)
+        # contract axes from last to first; after contracting axis a the sample index sits in the last position: rotate it to the front
+        for a in range(K - 1, -1, -1):
+            cur = apply_axis(cur, ns[a])
+            cur = {(idx[-1],) + idx[:-1]: v for idx, v in cur.items()}
+        for idx in itertools.product(*[range(s) for s in want_shape]):
+            out.append(prove_eq('%s.entry%s' % (oid, '_'.join(map(str, idx))), hy + list(paths[0].pc), _nd_get(res, idx), cur[idx], fn, z3_first_ms=300))
+        return out
+    return go()
